@@ -27,7 +27,10 @@ ID = "C15"
 LEVEL = "fault_enumeration"
 RULE = (
     "Hypothesis draws scenarios (network, which of {first entry, second entry "
-    "beside an existing one, overwrite of an existing entry}, "
+    "beside an existing one, overwrite of an existing entry, "
+    "overwrite='improved' of an existing entry with later processes that also "
+    "want to improve it}, how the writer dies {os._exit; torn down by an "
+    "exception, so that its finally/with clauses still run}, "
     "directory_split of the writer, directory_split of the later reader in "
     "{same, 'auto'}, seeds). For each scenario ALL crash points of the "
     "writing process are enumerated from a logged dry run: death before each "
@@ -81,7 +84,10 @@ def scenarios(draw):
     )
     return {
         "net": net,
-        "scenario": draw(st.sampled_from(["first", "second", "overwrite"])),
+        "scenario": draw(st.sampled_from(["first", "second", "overwrite", "improve"])),
+        # how the writer dies: killed outright, or torn down by an exception
+        # (its finally / with clauses still run)
+        "death": draw(st.sampled_from(["exit", "exit", "raise"])),
         "split": draw(st.booleans()),
         "reader_split": draw(st.sampled_from(["same", "auto"])),
         "seed_old": draw(st.integers(0, 99)),
@@ -97,7 +103,7 @@ def strategy(tier, sub=None):
 
 def budget(tier, sub=None):
     # examples = scenarios; every scenario enumerates all of its crash points
-    return {"examples": 32 if tier == "quick" else 640, "shards": 16, "timeout": 3000 if tier == "quick" else 6 * 3600}
+    return {"examples": 48 if tier == "quick" else 800, "shards": 16, "timeout": 3000 if tier == "quick" else 6 * 3600}
 
 
 # ---------------------------------------------------------------------------
@@ -105,12 +111,28 @@ def budget(tier, sub=None):
 # ---------------------------------------------------------------------------
 
 
+class Dying(BaseException):
+    """The writer is being torn down by an exception (Ctrl-C, a raising SIGTERM
+    handler): unlike os._exit its ``finally`` / ``with`` clauses still run."""
+
+
 class Injector:
-    def __init__(self, root, crash=None):
+    def __init__(self, root, crash=None, death="exit"):
         self.root = os.path.realpath(root)
         self.crash = crash  # None | (k, None) | (k, nbytes)
         self.k = 0
         self.log = []
+        self.death = death
+        self.dead = False
+
+    def die(self):
+        if self.death == "raise":
+            # from now on nothing may be injected again: the unwinding code
+            # (finally clauses) runs normally and the process then ends
+            self.dead = True
+            self.crash = None
+            raise Dying()
+        os._exit(EXIT_CRASH)
 
     def inside(self, path):
         try:
@@ -128,7 +150,7 @@ class Injector:
         self.k += 1
         self.log.append([kind, self.rel(path), nbytes])
         if self.crash is not None and self.crash[0] == k and self.crash[1] is None:
-            os._exit(EXIT_CRASH)
+            self.die()
         return k
 
     def install(self):
@@ -158,7 +180,8 @@ class Injector:
                 k = inj.op("flush", self.path, len(data))
                 if inj.crash is not None and inj.crash[0] == k and inj.crash[1] is not None:
                     self.raw.write(data[: inj.crash[1]])
-                    os._exit(EXIT_CRASH)
+                    self.buf.clear()
+                    inj.die()
                 n = 0
                 while n < len(data):
                     n += self.raw.write(data[n:])
@@ -323,15 +346,23 @@ def query_of(net, which):
     return tuple(inputs), output, sizes
 
 
-def do_search(cachedir, split, seed, q, overwrite=False, cache_only=False, crash=None, log=False):
+def do_search(cachedir, split, seed, q, overwrite=False, cache_only=False, crash=None, log=False, death="exit"):
     def fn():
         inj = None
         if crash is not None or log:
-            inj = Injector(cachedir, crash)
+            inj = Injector(cachedir, crash, death=death)
             inj.install()
-        opt = make_opt(cachedir, split, seed, overwrite=overwrite, cache_only=cache_only)
         _calls["n"] = 0
-        tree = opt.search(*q)
+        try:
+            opt = make_opt(cachedir, split, seed, overwrite=overwrite, cache_only=cache_only)
+            tree = opt.search(*q)
+        except Dying:
+            # the exception has unwound the writer (its finally / with clauses
+            # have run); the process is gone now
+            os._exit(EXIT_CRASH)
+        if inj is not None and inj.dead:
+            # something swallowed the teardown exception and carried on
+            os._exit(EXIT_CRASH)
         return {
             "path": [list(p) for p in tree.get_path()],
             "complete": bool(tree.is_complete()),
@@ -394,7 +425,7 @@ def run_scenario(spec, state=None, points=None, stop_at_first=True):
         os.makedirs(template)
         tcache = os.path.join(template, "cache")
         old = None
-        if scenario in ("second", "overwrite"):
+        if scenario in ("second", "overwrite", "improve"):
             code, old = do_search(tcache, split, spec["seed_old"], q_old)
             if code != 0 or not old or "raised" in old:
                 return Outcome([f"storing the pre-existing entry failed: {old}"], False, ["setup_failed"])
@@ -407,7 +438,12 @@ def run_scenario(spec, state=None, points=None, stop_at_first=True):
 
         # --- logged dry run of the writer
         c = fresh("dry")
-        code, new = do_search(c, split, spec["seed_new"], q_new, overwrite=(scenario == "overwrite"), log=True)
+        w_over = {"overwrite": True, "improve": "improved"}.get(scenario, False)
+        # a later process that also wants to improve the entry (scenario
+        # 'improve') searches every time by design
+        r_over = "improved" if scenario == "improve" else False
+        death = spec.get("death", "exit")
+        code, new = do_search(c, split, spec["seed_new"], q_new, overwrite=w_over, log=True)
         if code != 0 or not new or "raised" in new:
             return Outcome([f"uncrashed writer failed: {new}"], False, ["setup_failed"])
         log = new["log"]
@@ -419,7 +455,7 @@ def run_scenario(spec, state=None, points=None, stop_at_first=True):
             k, b = pt
             c = fresh("run")
             code, res = do_search(
-                c, split, spec["seed_new"], q_new, overwrite=(scenario == "overwrite"), crash=(k, b)
+                c, split, spec["seed_new"], q_new, overwrite=w_over, crash=(k, b), death=death
             )
             crashed = code == EXIT_CRASH
             if not crashed and k < len(log):
@@ -435,14 +471,14 @@ def run_scenario(spec, state=None, points=None, stop_at_first=True):
             if spawn:
                 code, r = do_search_spawn(c, reader_split, spec["seed_new"] + 1000, q_new)
             else:
-                code, r = do_search(c, reader_split, spec["seed_new"] + 1000, q_new)
+                code, r = do_search(c, reader_split, spec["seed_new"] + 1000, q_new, overwrite=r_over)
             if code != 0 or r is None or "raised" in (r or {}):
                 pv.append(f"{desc}: a later process on the directory fails: {r if r else 'exit ' + str(code)}")
             else:
                 if not (r["complete"] and r["N"] == len(q_new[0]) and r["inputs_ok"]):
                     pv.append(f"{desc}: later process got a tree that is not a complete tree of the query")
                 if r["trials"] == 0:
-                    allowed = [new["path"]] + ([old["path"]] if (old and scenario == "overwrite") else [])
+                    allowed = [new["path"]] + ([old["path"]] if (old and scenario in ("overwrite", "improve")) else [])
                     if r["path"] not in allowed:
                         pv.append(
                             f"{desc}: later process was served {r['path']} without searching; "
@@ -452,19 +488,19 @@ def run_scenario(spec, state=None, points=None, stop_at_first=True):
             # recovering (searching again, storing, promoting left-overs) must
             # leave the directory good for the next one as well
             if not pv and r is not None:
-                code, r3 = do_search(c, reader_split, spec["seed_new"] + 2000, q_new)
+                code, r3 = do_search(c, reader_split, spec["seed_new"] + 2000, q_new, overwrite=r_over)
                 if code != 0 or r3 is None or "raised" in (r3 or {}):
                     pv.append(f"{desc}: the SECOND later process on the directory fails: {r3 if r3 else 'exit ' + str(code)}")
                 else:
                     if not (r3["complete"] and r3["N"] == len(q_new[0]) and r3["inputs_ok"]):
                         pv.append(f"{desc}: second later process got a tree that is not a complete tree of the query")
-                    allowed3 = [new["path"], r["path"]] + ([old["path"]] if (old and scenario == "overwrite") else [])
+                    allowed3 = [new["path"], r["path"]] + ([old["path"]] if (old and scenario in ("overwrite", "improve")) else [])
                     if r3["trials"] == 0 and r3["path"] not in allowed3:
                         pv.append(
                             f"{desc}: second later process was served {r3['path']} without searching; "
                             f"stored answers are {allowed3}"
                         )
-                    if r3["trials"] != 0 and reader_split == split:
+                    if r3["trials"] != 0 and reader_split == split and not r_over:
                         pv.append(
                             f"{desc}: second later process searched again ({r3['trials']} trials) although the first "
                             "later process had just answered (and stored) the same query"
@@ -476,7 +512,7 @@ def run_scenario(spec, state=None, points=None, stop_at_first=True):
                     pv.append(f"{desc}: entry stored before the crash is no longer served: {r2}")
                 elif r2["path"] != old["path"] or r2["trials"] != 0:
                     pv.append(f"{desc}: entry stored before the crash changed: {r2['path']} vs {old['path']}")
-            if old is not None and not pv and scenario == "overwrite" and reader_split == split:
+            if old is not None and not pv and scenario in ("overwrite", "improve") and reader_split == split and not r_over:
                 # the overwritten entry must still be *some* complete stored answer
                 code, r2 = do_search(c, reader_split, 0, q_new, cache_only=True)
                 if code == 0 and r2 and "raised" not in r2 and r2["path"] not in (new["path"], old["path"]):
@@ -484,7 +520,7 @@ def run_scenario(spec, state=None, points=None, stop_at_first=True):
             nontrivial = first_mut < k <= last_mut or (b is not None)
             if state is not None:
                 cp = {"scenario": sh, "kind": scenario, "split": split, "reader_split": spec["reader_split"], "point": [k, b], "op": log[k] if k < len(log) else None}
-                o = Outcome([], nontrivial, [f"scenario={scenario}", f"split={split}", "inside_write" if b is not None else "between_ops"] + (["reader=spawned_interpreter"] if spawn else ["reader=forked"]))
+                o = Outcome([], nontrivial, [f"scenario={scenario}", f"split={split}", f"death={death}", "inside_write" if b is not None else "between_ops"] + (["reader=spawned_interpreter"] if spawn else ["reader=forked"]))
                 state.record(cp, o)
             if pv:
                 viol += pv
